@@ -121,6 +121,23 @@ theorem SpecRun.det {k : Kind} {v v1 v2 : View D} {ops : List (Op D)} (hd : ∀ 
       subst this
       exact ih (fun op hop => hd op (List.mem_cons_of_mem _ hop)) hr'
 
+/-- the two SQL kinds have the same reference step (they differ in `Pre` only) -/
+theorem SpecStep.peewee_iff_sqlite {v v' : View D} {op : Op D} :
+    SpecStep .peewee v v' op ↔ SpecStep .sqlite v v' op := by
+  cases op <;> exact Iff.rfl
+
+/-- a history of deterministic operations has the same outcome under the two SQL kinds -/
+theorem SpecRun.det_sql {v v1 v2 : View D} {ops : List (Op D)} (hd : ∀ op ∈ ops, op.Det)
+    (h1 : SpecRun .sqlite v ops v1) (h2 : SpecRun .peewee v ops v2) : v1 = v2 := by
+  induction h1 with
+  | nil v => cases h2; rfl
+  | cons _ hs _ ih =>
+    cases h2 with
+    | cons _ hs' hr' =>
+      have := SpecStep.det (hd _ (List.mem_cons_self ..)) hs (SpecStep.peewee_iff_sqlite.mp hs')
+      subst this
+      exact ih (fun op hop => hd op (List.mem_cons_of_mem _ hop)) hr'
+
 /-! ## the event part of a view -/
 
 /-- the events of every bucket, metadata forgotten -/
